@@ -4,7 +4,7 @@ import scratch, verus_engine
 root = scratch.make_copy('devv')
 try:
     r = verus_engine.run_unit(sys.argv[1], root + '/repo', root)
-    print('verified', r['verified'], 'errors', r['errors_n'], 'wall', round(r['wall'],1))
+    print('verified', r['verified'], 'errors', r['errors_n'], 'wall', round(r['wall'],1), 'OUT OF REACH:', r.get('out_of_reach'))
     for f in r['fns']:
         bad = [c for c in f['clauses'] if c['status'] != 'discharged']
         print(' ', f['name'], f['kind'], len(f['clauses']), 'clauses', 'total=' + f['total'], ['#%d %s' % (c['k'], c['status']) for c in bad])
